@@ -21,8 +21,18 @@ def gen_keys(rng, n, stats, long_ok=True):
     while len(keys) < n and tries < 10 * n + 10:
         tries += 1
         base = rng.pick(pool)
-        r = rng.below(20)
-        if r < 12:
+        r = rng.below(23)
+        if r >= 20:
+            # separator stress: two neighbours that differ by one at byte d and are both longer than d+2, the first with 0xff / 0xfe /
+            # 0x00 right after the differing byte (the 16-bit increment branch of bytes_shortest_separator, carry included)
+            d = rng.pick([0x00, 0x7f, 0xfe, 0x61, rng.below(255)])
+            x = rng.pick([0xff, 0xff, 0xfe, 0x00, rng.below(256)])
+            tail1 = bytes(rng.pick(ALPHA) for _ in range(1 + rng.below(3)))
+            tail2 = bytes(rng.pick(ALPHA) for _ in range(2 + rng.below(3)))
+            keys.add(base + bytes([d, x]) + tail1)
+            k = base + bytes([d + 1]) + tail2
+            stats.bump("keys_separator_carry_pair")
+        elif r < 12:
             k = base + bytes(rng.pick(ALPHA) for _ in range(1 + rng.below(3)))
         elif r < 15:
             k = base + bytes([rng.below(256)])
@@ -525,7 +535,10 @@ def gen_merger_case(rng, stats, focus="C04"):
     heap_stress = rng.chance(1, 4)
     ns = rng.pick([7, 8, 9, 10, 12, 15]) if heap_stress else rng.pick([0, 1, 2, 2, 3, 3, 4, 6])
     universe = gen_keys(rng, rng.pick([12, 16, 24]) if heap_stress else rng.pick([1, 3, 6, 10, 16]), stats, long_ok=False)
-    mode = rng.pick(["union", "union", "union", "lcp", "none", "dupsort", "fail"])
+    mode = rng.pick(["union", "union", "union", "lcp", "none", "dupsort", "fail", "union+dupsort", "lcp+dupsort"])
+    with_dupsort = mode.endswith("+dupsort")      # a merge function AND a dupsort function (what mtbl_fileset passes through)
+    if with_dupsort:
+        mode = mode.split("+")[0]; stats.bump("merger_merge_and_dupsort")
     if heap_stress:
         stats.bump("merger_heap_stress")
     stats.bump("merger_mode_" + mode); stats.bump("merger_sources_%d" % ns)
@@ -566,7 +579,7 @@ def gen_merger_case(rng, stats, focus="C04"):
         multi = [k for k in allkeys if sum(1 for _, es in srcs for kk, _ in es if kk == k) >= 2]
         failkey = rng.pick(multi) if multi and rng.chance(3, 4) else (rng.pick(allkeys) if allkeys else b"zz")
     marg = {"union": "merge=union", "lcp": "merge=lcp", "none": "merge=none", "dupsort": "merge=none dupsort=1", "fail": "merge=fail:%s" % hx(failkey or b"")}[mode]
-    lines.append("m.new 1 " + marg)
+    lines.append("m.new 1 " + marg + (" dupsort=1" if with_dupsort else ""))
     for kind, es in srcs:
         lines.append("m.src 1 kind=%s bs=%d ri=%d %s" % (kind, rng.pick([16, 32, 64]), rng.pick([1, 2, 3]), " ".join("%s %s" % (hx(k), hx(v)) for k, v in es)))
     # drain
@@ -812,7 +825,8 @@ def oracle_sorter(res):
 
 def gen_fileset_case(rng, stats, nops=None):
     ntab = rng.pick([2, 3, 4, 5])
-    names = ["t%d.mtbl" % i for i in range(ntab)] + ["junk.txt", "zz-missing.mtbl"]
+    nout = rng.pick([0, 1, 1, 2])          # tables in another directory than the setfile's, listed by absolute path
+    names = ["t%d.mtbl" % i for i in range(ntab)] + ["junk.txt", "zz-missing.mtbl"] + ["@o%d.mtbl" % i for i in range(nout)]
     lines = ["reset", "fs.begin"]
     universe = gen_keys(rng, 8, stats, long_ok=False)
     for t in range(ntab):
@@ -820,11 +834,15 @@ def gen_fileset_case(rng, stats, nops=None):
         lines.append("fs.table %d %s" % (t, " ".join("%s %s" % (hx(k), hx(bytes([0x50 + t, i]))) for i, k in enumerate(ks))))
         lines.append("fs.file t%d.mtbl %d" % (t, t))
     lines.append("fs.file junk.txt nt")
+    for i in range(nout):
+        lines.append("fs.file @o%d.mtbl %d" % (i, rng.below(ntab))); stats.bump("fs_table_in_other_dir")
     def setline():
         pick = [n for n in names if rng.chance(1, 2)]
         rng_order = list(pick)
+        for a in range(len(rng_order) - 1, 0, -1):         # any order: the setfile is a set
+            b = rng.below(a + 1); rng_order[a], rng_order[b] = rng_order[b], rng_order[a]
         # listed by absolute path sometimes
-        return " ".join(("/" + n if rng.chance(1, 4) else n) for n in rng_order)
+        return " ".join(("/" + n if rng.chance(1, 4) and not n.startswith("@") else n) for n in rng_order)
     lines.append("fs.set " + setline())
     def opts():
         iv = rng.pick(["0", "3", "10", "never"])
@@ -841,6 +859,26 @@ def gen_fileset_case(rng, stats, nops=None):
     iter_start = {}
     next_i = 100
     n = nops if nops is not None else rng.pick([6, 10, 15, 22])
+    if rng.chance(1, 4):
+        # a chain of setfile generations, each actually loaded (no iterator open, reload_now), then observed through every
+        # handle: tables enter, stay for several generations, and leave again
+        stats.bump("fs_generation_chain")
+        member = set(n0 for n0 in names if rng.chance(1, 2))
+        for g in range(rng.pick([3, 4, 6])):
+            for nm in list(names):
+                if rng.chance(1, 3):
+                    member ^= {nm}
+            order = sorted(member)
+            for a in range(len(order) - 1, 0, -1):
+                b = rng.below(a + 1); order[a], order[b] = order[b], order[a]
+            lines.append("fs.set " + " ".join(order))
+            lines.append("fs.now %d" % rng.pick(handles))
+            for h in handles:
+                lines.append("fs.it %d %d iter" % (h, next_i))
+                lines += ["fs.next %d" % next_i] * rng.pick([2, 9])
+                lines.append("fs.close %d" % next_i); next_i += 1
+            if len(handles) < 3 and rng.chance(1, 3):
+                lines.append("fs.dup %d %d %s" % (rng.pick(handles), next_h, opts())); handles.append(next_h); next_h += 1
     for _ in range(n):
         r = rng.below(100)
         if r < 12:
